@@ -1,7 +1,711 @@
-//! C05 engine (not yet built).
-use crate::common::{CaseWriter, Opts};
+//! C05 — JSON manifestation is well-formed and faithful.
+//! Generates JSON-like values (plus functions, hidden fields, inherited objects, lazily built
+//! arrays), builds them as real `Val`s, sends them through every JSON-producing path of the
+//! implementation and writes, per (value, path):
+//!   * `json.write`  — the emitted bytes, compared byte-for-byte with the Lean writer model;
+//!   * `json.read`   — the emitted bytes, read by the Lean reference reader and compared with the
+//!                     canonical value (observation of the property on the implementation's output);
+//!   * `json.indep`  — serde_json as independent reader of the emitted text and `std.parseJson`
+//!                     as left inverse, both compared structurally with the source value.
+//! Separately: `json.esc`/`json.unesc` for the string escaper over every Unicode scalar value and
+//! `json.num` for the numeric-token hypothesis (`Display for f64`) over doubles of every exponent.
+use std::collections::BTreeMap;
+
+use jrsonnet_evaluator::{
+	function::NativeFn,
+	manifest::{escape_string_json, JsonFormat, ToStringFormat},
+	typed::FromUntyped,
+	val::{ArrValue, NumValue},
+	ObjValue, Thunk, Val,
+};
+use serde_json::{json, Value};
+
+use crate::common::{guarded, new_state, CaseWriter, Opts, Rng};
+
+#[derive(Clone, Debug)]
+pub enum G {
+	Null,
+	Bool(bool),
+	Num(f64),
+	Str(String),
+	/// elements, how the array is built (0 eager, 1 lazy thunks, 2 std.map identity,
+	/// 3 split and concatenated, 4 reversed twice)
+	Arr(Vec<G>, u8),
+	/// fields in definition order (key, hidden, value), how the object is built (0 one builder,
+	/// 1 `o + {}`, 2 `{} + o`, 3 two layers `A + B`)
+	Obj(Vec<(String, bool, G)>, u8),
+	Func,
+}
+
+fn hex(b: &[u8]) -> String {
+	let mut s = String::with_capacity(b.len() * 2);
+	for x in b {
+		s.push_str(&format!("{x:02x}"));
+	}
+	s
+}
+
+struct Env {
+	func: Val,
+	map_id: NativeFn!((Val) -> Val),
+	rev2: NativeFn!((Val) -> Val),
+	add_empty_r: NativeFn!((Val) -> Val),
+	add_empty_l: NativeFn!((Val) -> Val),
+	m_json: NativeFn!((Val) -> Val),
+	m_min: NativeFn!((Val) -> Val),
+	m_ex4: NativeFn!((Val, String, String, String) -> Val),
+	m_ex2: NativeFn!((Val, String) -> Val),
+	to_string: NativeFn!((Val) -> Val),
+	cat_l: NativeFn!((Val) -> Val),
+	cat_r: NativeFn!((Val) -> Val),
+	parse_json: NativeFn!((String) -> Val),
+	esc_builtin: NativeFn!((String) -> Val),
+	str_cat: NativeFn!((String, String) -> Val),
+}
+
+fn num_tok(f: f64) -> Result<String, String> {
+	match guarded(|| Val::Num(NumValue::new(f).expect("finite")).manifest(JsonFormat::minify())) {
+		Ok(Ok(s)) => Ok(s),
+		Ok(Err(e)) => Err(format!("err:{}", e.error())),
+		Err(p) => Err(format!("panic:{p}")),
+	}
+}
+
+impl G {
+	fn json(&self) -> Value {
+		match self {
+			G::Null => Value::Null,
+			G::Bool(b) => json!(b),
+			G::Num(f) => {
+				json!({"n": format!("{:016x}", f.to_bits()), "t": hex(num_tok(*f).unwrap_or_default().as_bytes())})
+			}
+			G::Str(s) => json!({"s": hex(s.as_bytes())}),
+			G::Arr(xs, _) => json!({"a": xs.iter().map(G::json).collect::<Vec<_>>()}),
+			G::Obj(fs, _) => json!({"o": fs.iter().map(|(k, h, v)| json!([hex(k.as_bytes()), h, v.json()])).collect::<Vec<_>>()}),
+			G::Func => json!("f"),
+		}
+	}
+	fn size(&self) -> usize {
+		match self {
+			G::Str(s) => 1 + s.len() / 8,
+			G::Arr(xs, _) => 1 + xs.iter().map(G::size).sum::<usize>(),
+			G::Obj(fs, _) => 1 + fs.iter().map(|(k, _, v)| 1 + k.len() / 8 + v.size()).sum::<usize>(),
+			_ => 1,
+		}
+	}
+	fn depth(&self) -> usize {
+		match self {
+			G::Arr(xs, _) => 1 + xs.iter().map(G::depth).max().unwrap_or(0),
+			G::Obj(fs, _) => 1 + fs.iter().map(|(_, _, v)| v.depth()).max().unwrap_or(0),
+			_ => 0,
+		}
+	}
+	/// a function in a visited (non-hidden) position
+	fn has_func(&self) -> bool {
+		match self {
+			G::Func => true,
+			G::Arr(xs, _) => xs.iter().any(G::has_func),
+			G::Obj(fs, _) => fs.iter().any(|(_, h, v)| !*h && v.has_func()),
+			_ => false,
+		}
+	}
+	fn build(&self, env: &Env) -> Val {
+		match self {
+			G::Null => Val::Null,
+			G::Bool(b) => Val::Bool(*b),
+			G::Num(f) => Val::Num(NumValue::new(*f).expect("finite")),
+			G::Str(s) => {
+				// long strings: built by concatenation (tree-shaped StrValue, flattened on manifest)
+				if s.len() > 100 && s.len() % 2 == 0 {
+					let mut k = s.len() / 2;
+					while !s.is_char_boundary(k) {
+						k += 1;
+					}
+					env.str_cat.call(s[..k].to_owned(), s[k..].to_owned()).expect("a+b")
+				} else {
+					Val::string(s.as_str())
+				}
+			}
+			G::Func => env.func.clone(),
+			G::Arr(xs, kind) => {
+				let vals: Vec<Val> = xs.iter().map(|x| x.build(env)).collect();
+				match kind {
+					0 => Val::Arr(ArrValue::eager(vals)),
+					1 => Val::Arr(ArrValue::lazy(vals.into_iter().map(Thunk::evaluated).collect())),
+					2 => env.map_id.call(Val::Arr(ArrValue::eager(vals))).expect("map"),
+					3 => {
+						let k = vals.len() / 2;
+						let b = vals[k..].to_vec();
+						let a = vals[..k].to_vec();
+						Val::Arr(ArrValue::extended(ArrValue::eager(a), ArrValue::eager(b)))
+					}
+					_ => env.rev2.call(Val::Arr(ArrValue::eager(vals))).expect("rev2"),
+				}
+			}
+			G::Obj(fs, kind) => {
+				let put = |b: &mut jrsonnet_evaluator::ObjValueBuilder, fs: &[(String, bool, G)]| {
+					for (k, h, v) in fs {
+						let m = b.field(k.as_str());
+						let m = if *h { m.hide() } else { m };
+						m.value(v.build(env));
+					}
+				};
+				match kind {
+					3 => {
+						let k = fs.len() / 2;
+						let mut a = ObjValue::builder();
+						put(&mut a, &fs[..k]);
+						let mut b = ObjValue::builder();
+						put(&mut b, &fs[k..]);
+						Val::Obj(b.build().extend_from(a.build()))
+					}
+					kind => {
+						let mut b = ObjValue::builder();
+						put(&mut b, fs);
+						let o = Val::Obj(b.build());
+						match kind {
+							1 => env.add_empty_r.call(o).expect("o+{}"),
+							2 => env.add_empty_l.call(o).expect("{}+o"),
+							_ => o,
+						}
+					}
+				}
+			}
+		}
+	}
+}
+
+/// `source == read back` as JSON values: same structure, strings equal, numbers equal as doubles,
+/// exactly the visible keys
+fn same_serde(v: &Value, g: &G) -> bool {
+	match (v, g) {
+		(Value::Null, G::Null) => true,
+		(Value::Bool(a), G::Bool(b)) => a == b,
+		(Value::Number(n), G::Num(f)) => n.as_f64().map_or(false, |x| x == *f),
+		(Value::String(a), G::Str(b)) => a == b,
+		(Value::Array(a), G::Arr(b, _)) => a.len() == b.len() && a.iter().zip(b).all(|(x, y)| same_serde(x, y)),
+		(Value::Object(a), G::Obj(fs, _)) => {
+			let vis: Vec<&(String, bool, G)> = fs.iter().filter(|f| !f.1).collect();
+			a.len() == vis.len() && vis.iter().all(|(k, _, gv)| a.get(k).map_or(false, |x| same_serde(x, gv)))
+		}
+		_ => false,
+	}
+}
+
+fn same_val(v: &Val, g: &G) -> bool {
+	match (v, g) {
+		(Val::Null, G::Null) => true,
+		(Val::Bool(a), G::Bool(b)) => a == b,
+		(Val::Num(n), G::Num(f)) => n.get() == *f,
+		(Val::Str(a), G::Str(b)) => a.clone().into_flat().as_str() == b.as_str(),
+		(Val::Arr(a), G::Arr(b, _)) => {
+			a.len() == b.len()
+				&& a.iter().zip(b).all(|(x, y)| x.map_or(false, |x| same_val(&x, y)))
+		}
+		(Val::Obj(o), G::Obj(fs, _)) => {
+			let mut vis: Vec<&(String, bool, G)> = fs.iter().filter(|f| !f.1).collect();
+			vis.sort_by(|a, b| a.0.as_bytes().cmp(b.0.as_bytes()));
+			let keys = o.fields_ex(true);
+			keys.len() == vis.len()
+				&& keys.iter().zip(&vis).all(|(k, f)| k.as_str() == f.0.as_str())
+				&& vis.iter().all(|(k, _, gv)| {
+					matches!(o.get(k.as_str().into()), Ok(Some(x)) if same_val(&x, gv))
+				})
+		}
+		_ => false,
+	}
+}
+
+// ---------------------------------------------------------------- generators
+
+const SPECIAL_CP: &[u32] = &[
+	0x00, 0x01, 0x07, 0x08, 0x09, 0x0A, 0x0B, 0x0C, 0x0D, 0x0E, 0x1F, 0x20, 0x21, 0x22, 0x23, 0x2F, 0x5B, 0x5C,
+	0x5D, 0x7E, 0x7F, 0x80, 0x9F, 0xA0, 0xFF, 0x100, 0x7FF, 0x800, 0xFFF, 0x1000, 0x2027, 0x2028, 0x2029, 0xD7FF,
+	0xE000, 0xFEFF, 0xFFFD, 0xFFFE, 0xFFFF, 0x10000, 0x1F600, 0xFFFFF, 0x100000, 0x10FFFF,
+];
+
+fn gen_cp(rng: &mut Rng) -> char {
+	loop {
+		let c = match rng.below(10) {
+			0 | 1 | 2 => *rng.pick(SPECIAL_CP),
+			3 | 4 | 5 => rng.range(0x20, 0x7E) as u32,
+			6 => rng.range(0, 0x1F) as u32,
+			7 => rng.range(0x80, 0x7FF) as u32,
+			8 => rng.range(0x800, 0xFFFF) as u32,
+			_ => rng.range(0x10000, 0x10FFFF) as u32,
+		};
+		if let Some(ch) = char::from_u32(c) {
+			return ch;
+		}
+	}
+}
+
+fn gen_str(rng: &mut Rng) -> String {
+	let n = match rng.below(12) {
+		0 => 0,
+		1 => 1,
+		11 => rng.range(40, 300) as usize,
+		_ => rng.range(1, 9) as usize,
+	};
+	(0..n).map(|_| gen_cp(rng)).collect()
+}
+
+const SPECIAL_NUM: &[f64] = &[
+	0.0,
+	-0.0,
+	1.0,
+	-1.0,
+	0.1,
+	-0.1,
+	1.5,
+	0.3,
+	1e21,
+	1e22,
+	1e23,
+	1e-5,
+	1e-7,
+	123456789012345680000.0,
+	9007199254740991.0,
+	9007199254740992.0,
+	9007199254740993.0,
+	9007199254740994.0,
+	-9007199254740993.0,
+	9223372036854775807.0,
+	9223372036854775808.0,
+	18446744073709551615.0,
+	18446744073709551616.0,
+	-9223372036854775808.0,
+	-9223372036854777856.0,
+	4294967296.0,
+	2147483648.0,
+	f64::MAX,
+	f64::MIN,
+	f64::MIN_POSITIVE,
+	2.2250738585072009e-308,
+	5e-324,
+	-5e-324,
+	1e308,
+	1e-308,
+	0.30000000000000004,
+	2.5e-8,
+	100.0,
+	1e15,
+	1e16,
+	1e17,
+];
+
+fn gen_num(rng: &mut Rng) -> f64 {
+	match rng.below(10) {
+		0 | 1 | 2 => *rng.pick(SPECIAL_NUM),
+		3 => rng.range(-1000, 1000) as f64,
+		4 => rng.range(-1_000_000, 1_000_000) as f64 / 1000.0,
+		5 => {
+			// integers around powers of two beyond 2^53
+			let e = rng.range(50, 70) as i32;
+			(2f64).powi(e) + rng.range(-3, 3) as f64 * (2f64).powi((e - 52).max(0))
+		}
+		6 => {
+			let e = rng.range(-320, 308) as i32;
+			let m = rng.range(1, 9999) as f64;
+			let v = m * (10f64).powi(e);
+			if v.is_finite() {
+				v
+			} else {
+				1e300
+			}
+		}
+		_ => loop {
+			let v = f64::from_bits(rng.next());
+			if v.is_finite() {
+				break v;
+			}
+		},
+	}
+}
+
+/// numbers inside structured values: mostly short tokens (the full range is the business of the
+/// `json.num` stream), one in ten from the full distribution
+fn gen_num_short(rng: &mut Rng) -> f64 {
+	match rng.below(10) {
+		0 => gen_num(rng),
+		1 | 2 | 3 => *rng.pick(&[0.0, -0.0, 1.0, -1.0, 0.1, 1.5, 1e21, 1e-7, 9007199254740993.0, 5e-324, 0.30000000000000004, 4294967296.0, -2.5]),
+		4 | 5 | 6 => rng.range(-1000, 1000) as f64,
+		7 | 8 => rng.range(-1_000_000, 1_000_000) as f64 / 1000.0,
+		_ => f64::from_bits(0x3FF0_0000_0000_0000 | (rng.next() >> 12)) * (10f64).powi(rng.range(-6, 15) as i32),
+	}
+}
+
+fn gen_key(rng: &mut Rng) -> String {
+	match rng.below(6) {
+		0 => String::new(),
+		1 | 2 => {
+			let n = rng.range(1, 3) as usize;
+			(0..n).map(|_| *rng.pick(&['a', 'b', 'A', 'B', 'z', '_', '0', '1', ' ', 'é', 'ÿ', '\u{800}', '\u{FFFF}', '\u{10000}', '"', '\\', '\n', '\u{7f}'])).collect()
+		}
+		_ => gen_str(rng),
+	}
+}
+
+fn gen(rng: &mut Rng, depth: usize, with_func: bool) -> G {
+	let leaf = depth == 0 || rng.chance(2, 5);
+	if leaf {
+		return match rng.below(12) {
+			0 => G::Null,
+			1 => G::Bool(rng.chance(1, 2)),
+			2 | 3 | 4 | 5 => G::Num(gen_num_short(rng)),
+			6 | 7 | 8 => G::Str(gen_str(rng)),
+			9 => G::Arr(vec![], rng.below(5) as u8),
+			10 => G::Obj(vec![], rng.below(4) as u8),
+			_ => {
+				if with_func && rng.chance(1, 3) {
+					G::Func
+				} else {
+					G::Null
+				}
+			}
+		};
+	}
+	if rng.chance(1, 2) {
+		let n = match rng.below(8) {
+			0 => 0,
+			1 => 1,
+			7 => rng.range(8, 40) as usize,
+			_ => rng.range(2, 5) as usize,
+		};
+		G::Arr((0..n).map(|_| gen(rng, depth - 1, with_func)).collect(), rng.below(5) as u8)
+	} else {
+		let n = match rng.below(8) {
+			0 => 0,
+			1 => 1,
+			7 => rng.range(8, 30) as usize,
+			_ => rng.range(2, 5) as usize,
+		};
+		let mut seen = std::collections::BTreeSet::new();
+		let mut fs = Vec::new();
+		for _ in 0..n {
+			let k = gen_key(rng);
+			if !seen.insert(k.clone()) {
+				continue;
+			}
+			let hidden = rng.chance(1, 4);
+			// hidden fields may hold functions: they are never visited
+			let v = if hidden && rng.chance(1, 3) { G::Func } else { gen(rng, depth - 1, with_func) };
+			fs.push((k, hidden, v));
+		}
+		G::Obj(fs, rng.below(4) as u8)
+	}
+}
+
+// ---------------------------------------------------------------- paths
+
+struct Path {
+	name: &'static str,
+	mode: Value,
+}
+
+fn run_path(env: &Env, v: &Val, p: &Path, ex: &(String, String, String)) -> Result<jrsonnet_evaluator::Result<String>, String> {
+	let as_str = |r: jrsonnet_evaluator::Result<Val>| -> jrsonnet_evaluator::Result<String> {
+		r.map(|v| v.as_str().map(|s| s.to_string()).unwrap_or_else(|| "<not a string>".to_owned()))
+	};
+	let n = p.mode.get("n").and_then(Value::as_u64).unwrap_or(0) as usize;
+	guarded(|| match p.name {
+		"minify" => v.manifest(JsonFormat::minify()),
+		"default" => v.manifest(JsonFormat::default()),
+		"cli" => v.manifest(JsonFormat::cli(n)),
+		"std.manifestJson" => as_str(env.m_json.call(v.clone())),
+		"std.manifestJsonMinified" => as_str(env.m_min.call(v.clone())),
+		"std.manifestJsonEx/2" => as_str(env.m_ex2.call(v.clone(), ex.0.clone())),
+		"std.manifestJsonEx/4" => as_str(env.m_ex4.call(v.clone(), ex.0.clone(), ex.1.clone(), ex.2.clone())),
+		"std_to_json" => v.manifest(JsonFormat::std_to_json(ex.0.clone(), &ex.1, &ex.2)),
+		"ToStringFormat" => v.manifest(ToStringFormat),
+		"std.toString" => as_str(env.to_string.call(v.clone())),
+		"''+v" => as_str(env.cat_l.call(v.clone())),
+		"v+''" => as_str(env.cat_r.call(v.clone())),
+		_ => unreachable!(),
+	})
+}
 
 pub fn run(opts: &Opts) {
-	let w = CaseWriter::new(&opts.out);
-	w.finish(serde_json::json!({"engine":"c05","cases":0,"rule":"stub"}), &opts.out);
+	let s = new_state();
+	let _g = s.enter();
+	let fv = |code: &str| s.evaluate_snippet("<c05>".to_owned(), code.to_owned()).expect("snippet");
+	macro_rules! nf {
+		($code:expr) => {
+			FromUntyped::from_untyped(fv($code)).expect("native fn")
+		};
+	}
+	let env = Env {
+		func: fv("function(x) x"),
+		map_id: nf!("function(a) std.map(function(x) x, a)"),
+		rev2: nf!("function(a) std.reverse(std.reverse(a))"),
+		add_empty_r: nf!("function(o) o + {}"),
+		add_empty_l: nf!("function(o) {} + o"),
+		m_json: nf!("function(v) std.manifestJson(v)"),
+		m_min: nf!("function(v) std.manifestJsonMinified(v)"),
+		m_ex4: nf!("function(v, i, n, s) std.manifestJsonEx(v, i, n, s)"),
+		m_ex2: nf!("function(v, i) std.manifestJsonEx(v, i)"),
+		to_string: nf!("function(v) std.toString(v)"),
+		cat_l: nf!("function(v) '' + v"),
+		cat_r: nf!("function(v) v + ''"),
+		parse_json: nf!("function(s) std.parseJson(s)"),
+		esc_builtin: nf!("function(s) std.escapeStringJson(s)"),
+		str_cat: nf!("function(a, b) a + b"),
+	};
+	let mut w = CaseWriter::new(&opts.out);
+	let mut rng = Rng::new(opts.seed);
+	let thorough = opts.thorough();
+	let mut hist: BTreeMap<String, usize> = BTreeMap::new();
+	let mut bump = |hist: &mut BTreeMap<String, usize>, k: &str| *hist.entry(k.to_owned()).or_default() += 1;
+
+	// ---- 1. string escaper: every Unicode scalar value, in chunks; each chunk also with the
+	//         interesting code point first / in the middle / last
+	let chunk = if thorough { 256u32 } else { 2048u32 };
+	let mut strings: Vec<String> = Vec::new();
+	let mut c0 = 0u32;
+	let mut n_scalars = 0usize;
+	while c0 < 0x110000 {
+		let st: String = (c0..(c0 + chunk).min(0x110000)).filter_map(char::from_u32).collect();
+		n_scalars += st.chars().count();
+		if !st.is_empty() {
+			strings.push(st);
+		}
+		c0 += chunk;
+	}
+	for cp in (0u32..0x100).chain(SPECIAL_CP.iter().copied()) {
+		if let Some(ch) = char::from_u32(cp) {
+			strings.push(ch.to_string());
+			strings.push(format!("{ch}ab"));
+			strings.push(format!("a{ch}b"));
+			strings.push(format!("ab{ch}"));
+			strings.push(format!("{ch}{ch}"));
+		}
+	}
+	strings.push(String::new());
+	for _ in 0..(if thorough { 20000 } else { 1500 }) {
+		strings.push(gen_str(&mut rng));
+	}
+	for (i, st) in strings.iter().enumerate() {
+		let sz = 1 + st.len() / 8;
+		let r = guarded(|| escape_string_json(st));
+		let ans = match &r {
+			Ok(t) => json!({"out": hex(t.as_bytes())}),
+			Err(p) => json!({"panic": p}),
+		};
+		w.case(json!({"op":"json.esc","via":"escape_string_json","s":hex(st.as_bytes()),"size":sz}), ans);
+		bump(&mut hist, "esc");
+		if let Ok(t) = &r {
+			w.case(
+				json!({"op":"json.unesc","s":hex(st.as_bytes()),"text":hex(t.as_bytes()),"size":sz}),
+				json!({"observed": true}),
+			);
+			// serde_json as independent string reader
+			let sj = serde_json::from_str::<Value>(t).ok().and_then(|v| v.as_str().map(|x| x == st)).unwrap_or(false);
+			w.case(
+				json!({"op":"json.indep","what":"serde_json reads escape_string_json(s) back as s (see the json.unesc case on line `case`)","case":w.n,"_s":st.chars().take(64).collect::<String>(),"expect":{"serde":true},"size":sz}),
+				json!({"serde": sj}),
+			);
+		}
+		if i % 7 == 0 || st.len() < 16 {
+			// the builtin wrapper
+			let r2 = guarded(|| env.esc_builtin.call(st.clone()));
+			let ans = match r2 {
+				Ok(Ok(v)) => json!({"out": hex(v.as_str().map(|s| s.to_string()).unwrap_or_default().as_bytes())}),
+				Ok(Err(e)) => json!({"err": format!("{}", e.error())}),
+				Err(p) => json!({"panic": p}),
+			};
+			w.case(json!({"op":"json.esc","via":"std.escapeStringJson","s":hex(st.as_bytes()),"size":sz}), ans);
+			bump(&mut hist, "esc.builtin");
+		}
+	}
+
+	// ---- 2. numeric tokens
+	let mut nums: Vec<f64> = SPECIAL_NUM.to_vec();
+	for e in -324..=308 {
+		let v: f64 = format!("1e{e}").parse().expect("float");
+		if v.is_finite() {
+			nums.push(v);
+			nums.push(-v);
+			nums.push(f64::from_bits(v.to_bits() + 1));
+			if v.to_bits() > 0 {
+				nums.push(f64::from_bits(v.to_bits() - 1));
+			}
+		}
+	}
+	for e in 0..=1023 {
+		let v = (2f64).powi(e);
+		nums.push(v);
+		nums.push(f64::from_bits(v.to_bits() - 1));
+		nums.push((2f64).powi(-e));
+	}
+	for k in 0..52 {
+		nums.push(f64::from_bits(1u64 << k)); // subnormals
+	}
+	for _ in 0..(if thorough { 300000 } else { 20000 }) {
+		nums.push(gen_num(&mut rng));
+	}
+	let mut exp_hist: BTreeMap<i32, usize> = BTreeMap::new();
+	for f in &nums {
+		let be = ((f.to_bits() >> 52) & 0x7ff) as i32;
+		*exp_hist.entry(be / 128).or_default() += 1;
+		let tok = num_tok(*f);
+		let (tokhex, ok) = match &tok {
+			Ok(t) => (hex(t.as_bytes()), true),
+			Err(_) => (String::new(), false),
+		};
+		w.case(
+			json!({"op":"json.num","bits":format!("{:016x}", f.to_bits()),"tok":tokhex,"size":1,"_tok":tok.clone().unwrap_or_else(|e| e)}),
+			json!({"observed": ok}),
+		);
+		// independent readers on the bare token
+		if let Ok(t) = &tok {
+			let sj = serde_json::from_str::<Value>(t).ok().and_then(|v| v.as_f64()).map_or(false, |x| x == *f);
+			let pj = match guarded(|| env.parse_json.call(t.clone())) {
+				Ok(Ok(Val::Num(n))) => n.get() == *f,
+				_ => false,
+			};
+			w.case(
+				json!({"op":"json.indep","what":"number token read by serde_json / std.parseJson","bits":format!("{:016x}", f.to_bits()),"tok":t,"expect":{"serde":true,"parse":true},"size":1}),
+				json!({"serde": sj, "parse": pj}),
+			);
+		}
+		bump(&mut hist, "num");
+	}
+
+	// ---- 3. values × paths
+	let n_vals = if thorough { 6000 } else { 1200 };
+	let mut values: Vec<G> = vec![
+		G::Null,
+		G::Bool(true),
+		G::Bool(false),
+		G::Num(-0.0),
+		G::Str(String::new()),
+		G::Str("a\"b\\c\u{0}\u{1f}\u{7f}\u{2028}\u{1F600}".into()),
+		G::Arr(vec![], 0),
+		G::Obj(vec![], 0),
+		G::Arr(vec![G::Arr(vec![], 1), G::Obj(vec![], 1)], 0),
+		G::Obj(vec![("b".into(), false, G::Arr(vec![], 0)), ("a".into(), false, G::Obj(vec![], 0))], 0),
+		G::Obj(vec![("x".into(), true, G::Num(1.0))], 0),
+		G::Obj(vec![("b".into(), false, G::Num(1.0)), ("a".into(), true, G::Func), ("A".into(), false, G::Num(2.0))], 3),
+		G::Func,
+		G::Arr(vec![G::Num(1.0), G::Func], 0),
+		G::Obj(vec![("f".into(), false, G::Func)], 0),
+		// witness of the Lean non-vacuity example
+		G::Obj(
+			vec![
+				("z".into(), false, G::Arr(vec![G::Arr(vec![], 0), G::Str("\u{0}\"\\\u{7f}\u{2028}\u{1F600}".into()), G::Null, G::Bool(true)], 0)),
+				("\u{0}\"\\\u{7f}\u{2028}\u{1F600}".into(), false, G::Obj(vec![], 0)),
+				("a".into(), false, G::Arr(vec![G::Num(-0.0), G::Num(1.5), G::Num(9007199254740994.0), G::Num(5e-324), G::Num(0.0)], 1)),
+			],
+			0,
+		),
+	];
+	// deep and wide
+	let mut deep = G::Num(1.0);
+	for i in 0..60 {
+		deep = if i % 2 == 0 { G::Arr(vec![deep], (i % 5) as u8) } else { G::Obj(vec![("k".into(), false, deep)], (i % 4) as u8) };
+	}
+	values.push(deep);
+	values.push(G::Arr((0..1500).map(|i| G::Num(i as f64)).collect(), 3));
+	values.push(G::Obj((0..300).map(|i| (format!("k{}", (i * 7919) % 1000), (i % 9 == 0, G::Num(i as f64)))).collect::<BTreeMap<_, _>>().into_iter().map(|(k, (h, v))| (k, h, v)).rev().collect(), 3));
+	for i in 0..n_vals {
+		let depth = 1 + rng.below(if thorough { 6 } else { 5 });
+		values.push(gen(&mut rng, depth, i % 5 == 0));
+	}
+	let indents = ["", " ", "  ", "    ", "\t", " \t", "\n"];
+	let newlines = ["\n", "", "\r\n", " ", "\n\n"];
+	let seps = [": ", ":", " : ", "\t:\n", " :"];
+	let mut depth_hist: BTreeMap<usize, usize> = BTreeMap::new();
+	let mut n_func = 0usize;
+	for g in &values {
+		*depth_hist.entry(g.depth()).or_default() += 1;
+		if g.has_func() {
+			n_func += 1;
+		}
+		let built = guarded(|| g.build(&env));
+		let v = match built {
+			Ok(v) => v,
+			Err(p) => {
+				w.case(json!({"op":"json.write","mode":{"k":"minify"},"v":g.json(),"size":g.size()}), json!({"panic": format!("build: {p}")}));
+				continue;
+			}
+		};
+		let gj = g.json();
+		let ex = (
+			(*rng.pick(&indents)).to_owned(),
+			(*rng.pick(&newlines)).to_owned(),
+			(*rng.pick(&seps)).to_owned(),
+		);
+		let cli_n = *rng.pick(&[0usize, 1, 2, 3, 4, 7, 8]);
+		let std_mode = |i: &str, n: &str, s: &str| json!({"k":"std","indent":hex(i.as_bytes()),"nl":hex(n.as_bytes()),"sep":hex(s.as_bytes())});
+		let paths = vec![
+			Path { name: "minify", mode: json!({"k":"minify"}) },
+			Path { name: "default", mode: json!({"k":"default"}) },
+			Path { name: "cli", mode: json!({"k":"cli","n":3}) },
+			Path { name: "cli", mode: json!({"k":"cli","n":cli_n}) },
+			Path { name: "std.manifestJson", mode: std_mode("    ", "\n", ": ") },
+			Path { name: "std.manifestJsonMinified", mode: json!({"k":"minify"}) },
+			Path { name: "std.manifestJsonEx/2", mode: std_mode(&ex.0, "\n", ": ") },
+			Path { name: "std.manifestJsonEx/4", mode: std_mode(&ex.0, &ex.1, &ex.2) },
+			Path { name: "std_to_json", mode: std_mode(&ex.0, &ex.1, &ex.2) },
+			Path { name: "ToStringFormat", mode: json!({"k":"tostring"}) },
+			Path { name: "std.toString", mode: json!({"k":"tostring"}) },
+			Path { name: "''+v", mode: json!({"k":"tostring"}) },
+			Path { name: "v+''", mode: json!({"k":"tostring"}) },
+		];
+		let mut seen_text: std::collections::BTreeSet<String> = std::collections::BTreeSet::new();
+		for p in &paths {
+			let r = run_path(&env, &v, p, &ex);
+			let sz = g.size();
+			bump(&mut hist, p.name);
+			let text = match &r {
+				Ok(Ok(t)) => Some(t.clone()),
+				_ => None,
+			};
+			let ans = match &r {
+				Ok(Ok(t)) => json!({"out": hex(t.as_bytes())}),
+				Ok(Err(e)) => {
+					let msg = format!("{}", e.error());
+					if msg.contains("tried to manifest function") {
+						json!({"err":"func"})
+					} else {
+						json!({"err": format!("other: {msg}")})
+					}
+				}
+				Err(pn) => json!({"panic": pn}),
+			};
+			w.case(json!({"op":"json.write","via":p.name,"mode":p.mode,"v":gj,"size":sz}), ans);
+			let Some(text) = text else { continue };
+			let is_tostring = p.mode["k"] == "tostring";
+			if is_tostring && matches!(g, G::Str(_)) {
+				continue; // a top-level string is passed through as-is: not JSON by design
+			}
+			if !seen_text.insert(text.clone()) {
+				bump(&mut hist, "read.skipped-identical-text");
+				continue; // the same bytes were already read back for this value
+			}
+			let case_no = w.n + 1;
+			w.case(
+				json!({"op":"json.read","via":p.name,"text":hex(text.as_bytes()),"v":gj,"size":sz}),
+				json!({"observed": true}),
+			);
+			let sj = serde_json::from_str::<Value>(&text).map_or(false, |x| same_serde(&x, g));
+			let pj = match guarded(|| env.parse_json.call(text.clone())) {
+				Ok(Ok(back)) => guarded(|| same_val(&back, g)).unwrap_or(false),
+				_ => false,
+			};
+			w.case(
+				json!({"op":"json.indep","what":"emitted text read by serde_json / std.parseJson equals the source value (text and value: see the json.read case on line `case`)","via":p.name,"case":case_no,"_text":text.chars().take(300).collect::<String>(),"expect":{"serde":true,"parse":true},"size":sz}),
+				json!({"serde": sj, "parse": pj}),
+			);
+		}
+	}
+	let meta = json!({
+		"engine":"c05","cases":w.n,
+		"strings":strings.len(),"unicode_scalars_covered":n_scalars,
+		"numbers":nums.len(),"number_biased_exponent_div128_hist":exp_hist,
+		"values":values.len(),"values_with_visited_function":n_func,"value_depth_hist":depth_hist,
+		"case_hist":hist,
+		"rule":"(1) escape_string_json + std.escapeStringJson on every Unicode scalar value (chunked) and each byte/special code point first/middle/last, byte-for-byte vs Lean loop model and RFC table, decoded by the Lean string reader and by serde_json; (2) number tokens for powers of 10/2 and neighbours, subnormals, 2^53..2^70 integers and random bit patterns: NumOK checked by the Lean exact-rounding reader, serde_json and std.parseJson; (3) seeded random JSON-like values to depth 5/6 (hidden fields, functions, inherited objects, lazily built arrays, deep 60, wide 1500) through JsonFormat::{minify,default,cli(n),std_to_json}, std.manifestJson/Minified/Ex (whitespace indent/newline/separator variants), ToStringFormat, std.toString, ''+v, v+'': bytes vs Lean writer, text read back by the Lean RFC 8259 reader, serde_json and std.parseJson"
+	});
+	w.finish(meta, &opts.out);
 }
